@@ -563,9 +563,13 @@ func cmdRun(args []string) {
 		},
 		"wall_s": wall, "violations": len(fresh),
 	}
-	_ = os.MkdirAll(filepath.Join(verifDir, "evidence"), 0o755)
+	evDir := filepath.Join(verifDir, "evidence")
+	if d := os.Getenv("SIMCHECK_EVIDENCE_DIR"); d != "" { // background sweeps: leave the committed evidence alone
+		evDir = d
+	}
+	_ = os.MkdirAll(evDir, 0o755)
 	eb, _ := json.MarshalIndent(ev, "", " ")
-	if err := os.WriteFile(filepath.Join(verifDir, "evidence", prop+".json"), eb, 0o644); err != nil {
+	if err := os.WriteFile(filepath.Join(evDir, prop+".json"), eb, 0o644); err != nil {
 		fmt.Fprintf(os.Stderr, "evidence: %v\n", err)
 		trouble = true
 	}
